@@ -704,6 +704,10 @@ class SSHLineEditor:
                     self._key_state = self._keymap
                     self._ring_bell()
 
+                if not self._line_mode and idx < data_len:
+                    self._session.data_received(data[idx:], datatype)
+                    break
+
             self._bell_rung = False
 
             if self._outbuf:
